@@ -21,9 +21,9 @@
    sequence groups, nillable, wildcards, compound fields, xsi:type, unions, QName values) is
    covered by the correspondence and the oracle of harness/c01.py only. *)
 From Coq Require Import NArith ZArith List Bool.
-From XV Require Import Base.Str Base.Eqb Base.PyInt Spec.XmlNs Model.Bind Model.WriterBridge Spec.Fits
-  Proofs.RoundtripParse Proofs.RoundtripMain.
-From XV Require Model.EventGen Model.Parser.
+From XV Require Import Base.Str Base.Eqb Base.PyInt Spec.XmlNs Model.Bind Model.WriterBridge Spec.Fits Model.RoundtripCorr
+  Proofs.RoundtripParse Proofs.RoundtripMain Proofs.RoundtripWitness Proofs.RoundtripExamples.
+From XV Require Model.EventGen Model.Parser Model.ParserCorr.
 Import ListNotations.
 
 (* ---- the round trip at the infoset level, slices S1-S3 (+ namespaces of S4) -------------
@@ -44,3 +44,59 @@ Theorem C01_roundtrip_S3 : forall cfg c u ok ign n cls o,
     /\ forall k pevs, reads e pevs -> Parser.parse_n k cfg c u (Some cls) pevs = Parser.Ok o [].
 Proof. intros. eapply roundtrip_reads; eassumption. Qed.
 Print Assumptions C01_roundtrip_S3.
+
+(* ---- the same in the form of the property text: the canonical reader stream `pump` of the tree
+   the emitted events mean (C03 connects that tree with the documents both writers produce) *)
+Theorem C01_roundtrip_pump_S3 : forall cfg c u ok ign n cls o,
+  conv_roundtrips c u ok -> nodefault_free cfg = true ->
+  wf_model u cls = true -> fits c u ok py_isspace n cls o = true ->
+  exists evs,
+    EventGen.generate ign c u o = EventGen.Ok evs
+    /\ Parser.parse cfg c u (Some cls) (pump (itree_of_events (map (of_wevent c) evs))) = Parser.Ok o [].
+Proof. intros. eapply roundtrip_pump; eassumption. Qed.
+Print Assumptions C01_roundtrip_pump_S3.
+
+(* ---- the hypotheses are inhabited --------------------------------------------------------- *)
+(* the converter law: property C05's models of the str / int / bool converters (C05_int_roundtrip,
+   C05_bool_roundtrip) instantiate it, on every str, every bool and every int CPython can print *)
+Theorem C01_converter_law_inhabited : forall u, conv_roundtrips conv_c05 u ok_c05.
+Proof. exact conv_c05_law. Qed.
+Print Assumptions C01_converter_law_inhabited.
+
+(* metadata exported from the REAL XmlContext (Proofs/RoundtripWitness.v, regenerated and compared
+   by every run of the check) and an instance with attributes, token lists, lists, nested
+   simple-content objects, an empty string, namespaces: inside the guards *)
+Example C01_guards_inhabited :
+  wf_model u_rich root_rich = true
+  /\ fits conv_c05 u_rich ok_c05 py_isspace 2 root_rich o_rich = true
+  /\ nodefault_free cfg_strict = true.
+Proof. exact guards_rich. Qed.
+Print Assumptions C01_guards_inhabited.
+
+(* the events the REAL handlers delivered for the REAL writers' output (XmlEventWriter with
+   indentation and a user prefix map -> XmlEventHandler; LxmlEventWriter with
+   ignore_default_attributes -> LxmlEventHandler) read as the expected tree, and are parsed back *)
+Example C01_real_events_read :
+  (match expected_rich false with Some e => reads_b e pevs_rich_native_indent | None => false end) = true
+  /\ (match expected_rich true with Some e => reads_b e pevs_rich_lxml | None => false end) = true.
+Proof. exact real_events_read_rich. Qed.
+
+Example C01_real_events_parse :
+  Parser.parse cfg_strict conv_c05 u_rich (Some root_rich) pevs_rich_native_indent = Parser.Ok o_rich []
+  /\ Parser.parse cfg_strict conv_c05 u_rich (Some root_rich) pevs_rich_lxml = Parser.Ok o_rich []
+  /\ Parser.parse cfg_strict conv_c05 u_rich (Some root_rich) (pump (expected_rich false)) = Parser.Ok o_rich [].
+Proof. exact real_events_parse_rich. Qed.
+
+(* ---- the full statement is false of the faithful models: one witness per guard clause ------- *)
+(* clause `negb (v_nillable v)` / `negb (m_nillable m)` (known finding C01-F1): A(b=B(x=1)) with b
+   nillable comes back as A(b=None); with the nillable flags cleared the very same metadata and
+   instance are inside the guards *)
+Theorem C01_nil_conflation_refuted :
+  wf_model u_nil root_nil = false
+  /\ wf_model (clear_nil u_nil) root_nil = true
+  /\ fits conv_c05 (clear_nil u_nil) ok_c05 py_isspace 2 root_nil o_nil = true
+  /\ composition_nil = Parser.Ok (VObj root_nil [([98%N], VNone)]) []
+  /\ Parser.parse cfg_strict conv_c05 u_nil (Some root_nil) pevs_nil = Parser.Ok (VObj root_nil [([98%N], VNone)]) []
+  /\ ParserCorr.outcome_eqb composition_nil (Parser.Ok o_nil []) = false.
+Proof. exact nil_conflation_refuted. Qed.
+Print Assumptions C01_nil_conflation_refuted.
